@@ -286,8 +286,11 @@ def tier_b(ctx, F, builds):
                 parts.append(("scan-%s-%s" % (cn, half), R.write_cfg("c09_scan_%s_%s.cfg" % (cn, half), consts([cn], ctx.seed, Kinds='{"scan"}', ScanPrefixes=R.tset(pf), ScanWide="TRUE"), INV)))
             continue
         pf = spread if cn in TOY8 else ({1, 2, 3, 4, 6} if quick else {0, 1, 2, 3, 4, 5, 6, 7})
+        # the widest scans (every x of a 2-octet field in compressed form, the large x sample) only on E13 (p = 3 mod 4: one power per root);
+        # on E16M3 they cost TLC half an hour
+        wide = (not quick) and cn != "E16M3"
         parts.append(("scan-" + cn, R.write_cfg("c09_scan_%s.cfg" % cn, consts([cn], ctx.seed, Kinds='{"scan"}', ScanPrefixes=R.tset(pf),
-                                                                                 ScanWide="FALSE" if quick else "TRUE"), INV)))
+                                                                                 ScanWide="TRUE" if wide else "FALSE"), INV)))
     for cn in curves:
         keys = {1, 2} | ({0} if (not quick and cn in TOY8) else set())
         ks = R.tset(keys | {1001, 1002} | set(rng.sample(range(3, 50), 3 if quick else 8)))
